@@ -194,9 +194,15 @@ def check(ctx):
     SP = gsa.summarise(ctx, TR, 'Transformer._split_c_string_for_namespace_matches', inline_only=())
     sp = SP.func
     srt = [c for c in gsa.find(SP, 'call', r'^\w+\.sort$')]
-    r5.check(len(srt) == 1 and srt[0].kwargs.get('key') == 'self._sort_matches' and 'reverse' not in srt[0].kwargs, 'matches sorted ascending with that key', tm.rel, sp.lineno,
-             'sort call: %s' % [c.value for c in srt])
+    oks = len(srt) == 1 and srt[0].kwargs.get('key') == 'self._sort_matches' and 'reverse' not in srt[0].kwargs
     lst = srt[0].target.split('.')[0] if srt else None
+    if not srt:
+        # sorted(matches, key=...) whose result is what the function returns
+        sc_ = [x for g, n in SP.returns if n is not None for x in ast.walk(n) if isinstance(x, ast.Call) and isinstance(x.func, ast.Name) and x.func.id == 'sorted']
+        srt_txt = [gsa._unparse(x) for x in sc_]
+        oks = bool(sc_) and all(len(x.args) == 1 and isinstance(x.args[0], ast.Name) and [(k.arg, gsa._unparse(k.value)) for k in x.keywords] == [('key', 'self._sort_matches')] for x in sc_)
+        lst = sc_[0].args[0].id if oks else None
+    r5.check(oks, 'matches sorted ascending with that key', tm.rel, sp.lineno, 'sort call: %s' % ([c.value for c in srt] or srt_txt))
     ap_ = gsa.find(SP, 'call', r'^%s\.append$' % re.escape(lst or '?'))
     okap = bool(ap_)
     for c in ap_:
@@ -205,13 +211,13 @@ def check(ctx):
                 and n.elts[1].slice.lower is not None and gsa._unparse(n.elts[1].slice.lower) == gsa._unparse(n.elts[2]) and gsa._unparse(n.elts[2]).startswith('len(')):
             okap = False
     r5.check(okap, 'match = (namespace, name without prefix, prefix length)', tm.rel, sp.lineno, 'match tuples: %s' % [c.args[0][:100] for c in ap_ if c.args])
-    SC = gsa.summarise(ctx, TR, 'Transformer.split_csymbol', inline_only=())
+    # sibling public wrappers that only forward to the match function may stand between split_csymbol and the ranking
+    fwd = [mn for mn, mf in py.methods(TR, 'Transformer').items() if mn != 'split_csymbol' and len([x for x in mf.body if not (isinstance(x, ast.Expr) and isinstance(x.value, ast.Constant))]) == 1
+           and isinstance(mf.body[-1], ast.Return) and isinstance(mf.body[-1].value, ast.Call) and P.call_name(mf.body[-1].value) == 'self._split_c_string_for_namespace_matches']
+    SC = gsa.summarise(ctx, TR, 'Transformer.split_csymbol', inline_only=fwd)
     rv = [gsa._unparse(n) for g, n in SC.returns]
     r5.check(len(rv) == 1 and re.search(r'^self\._split_c_string_for_namespace_matches\(.*\)\[-1\]$', rv[0]), 'split_csymbol takes the highest-ranked match', tm.rel, SC.func.lineno, 'split_csymbol returns %s' % rv)
-    # the upper/lower-case prefix family is chosen from the FIRST character of the name only
-    up = [a_ for a_ in SP.atoms() if re.search(r'\.isupper\(\)$', a_)]
-    r5.check(bool(up) and all(re.search(r'\[0\]\.isupper\(\)$', a_) for a_ in up), 'upper-case prefixes selected by the first character', tm.rel, sp.lineno,
-             'the choice between FOO_ and foo_ prefixes tests %s: a constant with a mixed-case tail (GDK_KEY_a, GDK_KEY_Return) matches no namespace prefix and is dropped' % up, detail=up)
+    upper_family_rule(ctx, r5)
 
     # ------------------------------------------------------------------ R6 constructor return check; get-type suffixes
     r6 = ctx.rule('R6', 'constructor: returned class must be the type or an ancestor; both get-type spellings handled alike', floor=3)
@@ -242,3 +248,11 @@ def check(ctx):
     SSP = gsa.summarise(ctx, 'gdumpparser', 'GDumpParser._split_type_and_symbol_prefix', inline_only=())
     sfx = sorted(set(re.findall(r"len\('(_get_g?type)'\)", ' '.join(gsa._unparse(n) for g, n in SSP.returns))))
     r6.check(sfx == ['_get_gtype', '_get_type'], 'symbol prefix = name minus the suffix that was actually matched', gdm.rel, SSP.func.lineno, 'suffix lengths stripped: %s' % sfx)
+
+
+def upper_family_rule(ctx, rule):
+    """the upper/lower-case prefix family is chosen from the FIRST character of the name only (shared with C13: constants and enumerators)"""
+    SP = gsa.summarise(ctx, TR, 'Transformer._split_c_string_for_namespace_matches', inline_only=())
+    up = [a_ for a_ in SP.atoms() if re.search(r'\.isupper\(\)$', a_)]
+    rule.check(bool(up) and all(re.search(r'\[0\]\.isupper\(\)$', a_) for a_ in up), 'upper-case prefixes selected by the first character', ctx.py.mod(TR).rel, SP.func.lineno,
+               'the choice between FOO_ and foo_ prefixes tests %s: a constant with a mixed-case tail (GDK_KEY_a, GDK_KEY_Return) matches no namespace prefix and is dropped' % up, detail=up)
